@@ -17,6 +17,7 @@ validated against the real env/xargs/find/timeout/nice/nohup/sh by T2 (harness/p
 -/
 import Dippy.Lemmas.Quote
 import Dippy.Model.Wrappers
+import Dippy.Lemmas.Shell
 import Dippy.Props.C07
 import Dippy.Generated.Tables
 
@@ -477,14 +478,46 @@ theorem tar_program_option_asks (tokens : List String) (other : String) (h : tar
   simp only [h]
   rfl
 
-/-- tar: every `--to-command` is part of the delegated text -/
+/-- tar: when extracting, every `--to-command` is part of the delegated text -/
 theorem tar_all_to_commands (tokens : List String) (hno : tarRunsOther (tokens.drop 1) = none)
+    (hx : tarDetect tokens = some "extract")
     (hne : ((tarToCommands (tokens.drop 1)).filter (fun c => !c.isEmpty)).isEmpty = false) :
     (tarClassify tokens).action = "delegate" ∧
       (tarClassify tokens).innerCommand = some ("\n".intercalate ((tarToCommands (tokens.drop 1)).filter (fun c => !c.isEmpty))) := by
   unfold tarClassify
-  simp only [hno, hne, Bool.not_false, ↓reduceIte]
+  simp only [hno, hne, hx, Bool.not_false, beq_self_eq_true, Bool.and_self, ↓reduceIte]
   exact ⟨rfl, rfl⟩
+
+/-- tar: `--to-command` stands in for tar's own verdict only when tar extracts (creating, appending, updating and
+    deleting write files of their own whatever the option says) -/
+theorem tar_delegates_only_extract (tokens : List String) (hd : (tarClassify tokens).action = "delegate") :
+    tarDetect tokens = some "extract" := by
+  unfold tarClassify at hd
+  split at hd
+  · simp [ask] at hd
+  · simp only at hd
+    split at hd
+    · rename_i h
+      simp only [Bool.and_eq_true, beq_iff_eq] at h
+      exact h.2
+    · split at hd <;> simp [ask, allow] at hd
+
+/-- tar: approval without delegation is the listing mode only -/
+theorem tar_allow_is_list (tokens : List String) (ha : (tarClassify tokens).action = "allow") :
+    tarDetect tokens = some "list" := by
+  unfold tarClassify at ha
+  split at ha
+  · simp [ask] at ha
+  · simp only at ha
+    split at ha
+    · simp [delegate] at ha
+    · split at ha
+      · assumption
+      · simp [ask] at ha
+      · simp [ask] at ha
+
+example : (tarClassify ["tar", "-cf", "/tmp/x.tar", "--to-command=cat", "/etc"]).action = "ask" := by decide +kernel
+example : (tarClassify ["tar", "-xf", "a.tar", "--to-command=cat"]).action = "delegate" := by decide +kernel
 
 /-- kubectl exec: exactly the words after the first `--` -/
 theorem kubectlExecInner_spec (l inner : List String) (hi : kubectlExecInner l = some inner) :
@@ -509,10 +542,10 @@ theorem kubectlExecInner_spec (l inner : List String) (hi : kubectlExecInner l =
       exact ⟨fun he => ht (by simp [he]), hp⟩
 
 /-- a shell's `-c`: the inner command is one of the command line's words, verbatim (no re-quoting,
-    no truncation), namely the one right after the first short-option cluster containing `c` -/
+    no truncation), namely the one right after the first short-option cluster containing `c` among the shell's options -/
 theorem shell_c_verbatim (tokens : List String) (c : Classification)
     (hc : shellClassify tokens = c) (hd : c.action = "delegate") :
-    ∃ inner rest, afterCFlag tokens = some (inner :: rest) ∧ inner ≠ "" ∧ c.innerCommand = some inner := by
+    ∃ inner rest, afterCFlag false (tokens.drop 1) = some (inner :: rest) ∧ inner ≠ "" ∧ c.innerCommand = some inner := by
   unfold shellClassify at hc
   split at hc
   · subst hc; simp [ask] at hd
@@ -525,6 +558,59 @@ theorem shell_c_verbatim (tokens : List String) (c : Classification)
       · rename_i hne
         subst hc
         exact ⟨inner, rest, hcf, by intro he; subst he; simp at hne, rfl⟩
+
+/-- the words before the `-c` cluster are options of the shell (or values of its value-taking options): `skip` says
+    whether the first word is such a value -/
+def ShellOptions : Bool → List String → Prop
+  | _, [] => True
+  | true, _ :: rest => ShellOptions false rest
+  | false, t :: rest => (sw t "-" = true ∨ sw t "+" = true) ∧ t ≠ "--" ∧ isCFlag t = false ∧ ShellOptions (shellTakesValue t) rest
+
+/-- where the `-c` cluster is found: only option words of the shell precede it – never a script operand or `--` -/
+theorem afterCFlag_position (b : Bool) (l rest : List String) (h : afterCFlag b l = some rest) :
+    ∃ pre t, l = pre ++ t :: rest ∧ ShellOptions b pre ∧ (pre = [] → b = false) ∧ isCFlag t = true := by
+  induction l generalizing b with
+  | nil => simp [afterCFlag] at h
+  | cons t l ih =>
+    cases b with
+    | true =>
+      simp only [afterCFlag] at h
+      obtain ⟨pre, c, hl, hp, _, hcf⟩ := ih false h
+      exact ⟨t :: pre, c, by simp [hl], by simpa [ShellOptions] using hp, by simp, hcf⟩
+    | false =>
+      simp only [afterCFlag] at h
+      split at h
+      · rename_i hcf
+        simp only [Option.some.injEq] at h
+        subst h
+        exact ⟨[], t, rfl, trivial, fun _ => rfl, hcf⟩
+      · rename_i hncf
+        have hncf' : isCFlag t = false := by simpa using hncf
+        split at h
+        · rename_i htv
+          obtain ⟨pre, c, hl, hp, _, hcf⟩ := ih true h
+          refine ⟨t :: pre, c, by simp [hl], ?_, by simp, hcf⟩
+          have hdash := takesValue_option t htv
+          exact ⟨hdash.1, hdash.2, hncf', by simpa [htv] using hp⟩
+        · rename_i hntv
+          have hntv' : shellTakesValue t = false := by simpa using hntv
+          split at h
+          · cases h
+          · rename_i hstop
+            simp only [Bool.or_eq_true, beq_iff_eq, Bool.not_eq_true', not_or, Bool.not_eq_false] at hstop
+            obtain ⟨pre, c, hl, hp, _, hcf⟩ := ih false h
+            refine ⟨t :: pre, c, by simp [hl], ?_, by simp, hcf⟩
+            have hsw : sw t "-" = true ∨ sw t "+" = true := by
+              have := hstop.2
+              simpa [Bool.or_eq_true] using this
+            exact ⟨hsw, hstop.1, hncf', by simpa [hntv'] using hp⟩
+
+/-- `bash x.sh -c ls` runs x.sh: a first word that is not an option ends the scan, nothing is delegated -/
+theorem shell_script_operand_asks (prog w : String) (rest : List String)
+    (hw : sw w "-" = false ∧ sw w "+" = false) : (shellClassify (prog :: w :: rest)).action = "ask" := by
+  have hcf : isCFlag w = false := by simp [isCFlag, hw.1]
+  have htv : shellTakesValue w = false := not_option_no_value w hw
+  simp [shellClassify, afterCFlag, hcf, htv, hw.1, hw.2, ask]
 
 /-- specification of what `find` executes: one clause per `-exec`/`-execdir`, up to `;` or `+` -/
 def execClauses : List String → List (List String)
@@ -593,6 +679,72 @@ theorem find_all_clauses (tokens : List String)
 
 example : execClauses ["find", ".", "-exec", "ls", "{}", ";", "-execdir", "rm", "{}", "+"]
     = [["ls", "{}"], ["rm", "{}"]] := by decide +kernel
+
+/-! ### script and the shells: options the launcher itself reads -/
+
+/-- script: what remains after the option loop is a suffix of the words -/
+theorem scriptSkip_suffix (b : Bool) (l seen seen' rem : List String) (h : scriptSkip b l seen = some (seen', rem)) :
+    rem <:+ l := by
+  induction l generalizing b seen with
+  | nil => cases b <;> simp [scriptSkip] at h <;> simp [h.2.symm]
+  | cons t rest ih =>
+    cases b with
+    | true =>
+      simp only [scriptSkip] at h
+      exact List.IsSuffix.trans (ih _ _ h) (List.suffix_cons t rest)
+    | false =>
+      simp only [scriptSkip] at h
+      split at h
+      · simp only [Option.some.injEq, Prod.mk.injEq] at h
+        rw [← h.2]; exact List.suffix_cons t rest
+      · split at h
+        · split at h
+          · cases h
+          · exact List.IsSuffix.trans (ih _ _ h) (List.suffix_cons t rest)
+        · simp only [Option.some.injEq, Prod.mk.injEq] at h
+          rw [← h.2]; exact List.suffix_refl _
+
+/-- script: the delegated text is the re-quoting of the words after the file operand, a non-empty proper suffix of the
+    command line reached through option words the handler knows -/
+theorem script_inner_suffix (tokens : List String) (hd : (scriptClassify tokens).action = "delegate") :
+    ∃ seen file command, scriptSkip false (tokens.drop 1) [] = some (seen, file :: command) ∧ command ≠ [] ∧
+      (file :: command) <:+ tokens.drop 1 ∧ (scriptClassify tokens).innerCommand = some (bashJoin command) := by
+  unfold scriptClassify at hd ⊢
+  split at hd
+  · simp [ask] at hd
+  · rename_i hlen
+    cases hs : scriptSkip false (tokens.drop 1) [] with
+    | none => rw [hs] at hd; simp [ask] at hd
+    | some p =>
+      obtain ⟨seen, remaining⟩ := p
+      rw [hs] at hd
+      cases remaining with
+      | nil => simp [ask] at hd
+      | cons file command =>
+        cases command with
+        | nil =>
+          simp only [List.isEmpty_nil, ↓reduceIte] at hd
+          split at hd <;> simp [ask, allow] at hd
+        | cons c cs =>
+          refine ⟨seen, file, c :: cs, rfl, by simp, scriptSkip_suffix _ _ _ _ _ hs, ?_⟩
+          simp [hlen, delegate]
+
+/-- script: an option word outside the handler's flag tables (util-linux's `-c COMMAND`, any long option) is never
+    stepped over – the command asks whatever follows -/
+theorem script_unknown_option_asks (prog t : String) (rest : List String)
+    (ht : sw t "-" = true) (hdd : t ≠ "--") (hu : scriptOption t = none) :
+    (scriptClassify (prog :: t :: rest)).action = "ask" := by
+  simp only [scriptClassify, List.drop_succ_cons, List.drop_zero, scriptSkip, ht, hdd, hu, ask, beq_iff_eq, ↓reduceIte]
+  split <;> rfl
+
+example : scriptOption "-c" = none := by decide +kernel
+example : (scriptClassify ["script", "-c", "rm x", "ls"]).action = "ask" := by decide +kernel
+example : (scriptClassify ["script", "-qt", "5", "f", "ls"]).innerCommand = some "ls" := by decide +kernel
+example : (scriptClassify ["script", "-q", "/dev/null", "ls", "-la"]).innerCommand = some "ls -la" := by decide +kernel
+example : (shellClassify ["bash", "x.sh", "-c", "ls"]).action = "ask" := by decide +kernel
+example : (shellClassify ["bash", "-eo", "pipefail", "-c", "ls"]).innerCommand = some "ls" := by decide +kernel
+example : (shellClassify ["bash", "--rcfile", "-c", "-c", "ls"]).innerCommand = some "ls" := by decide +kernel
+example : (shellClassify ["bash", "--", "-c", "ls"]).action = "ask" := by decide +kernel
 
 /-! ### T0 obligation: the launchers are the ones this property covers -/
 
